@@ -44,6 +44,8 @@ func runC28(c *Ctx) {
 	r.Rule("C28.R6", "Bind wiring: the packetizer is constructed with the track's stored sequencer and the codec clock rate that is also stored as the track clock rate; WriteSample uses the stored packetizer/sequencer/clock rate", 4)
 	r.Rule("C28.R7", "every sample is accounted for: WriteSample returns before the Packetize call only through the edge that establishes exactly `packetizer == nil` (track not bound)", 1)
 	r.Rule("C28.R8", "Bind stores a sequencer only on a path that goes on to build the packetizer from it (every path from a store of the sequencer field to a successful return passes a store of the packetizer field)", 2)
+	r.Rule("C28.R9", "the NextSequenceNumber skip for reported drops and the Packetize call of one WriteSample share one critical section of the sample mutex (the gap belongs to the sample that reported the loss)", 1)
+	r.Rule("C28.R10", "TrackLocalStaticSample.packetizer is written only in Bind and never with nil (the timeline - timestamp and sequencer - is never restarted)", 1)
 	r.NotCovered = append(r.NotCovered,
 		"the numeric statement: timestamp = initial + floor(total duration x clock rate) within one tick, mod 2^32 (floating-point accumulation over unbounded sequences)",
 		"that all packets of one sample share a timestamp and that sequence numbers increase by one per packet (pion/rtp Packetizer, outside the module)",
@@ -70,6 +72,7 @@ func runC28(c *Ctx) {
 		return
 	}
 	c28R78(c, ws, bind, fSeq, fPkt, mPacketize) // c28b.go
+	c28R910(c, ws, bind, fPkt, mPacketize, mNext)
 	fn := c.P.SSAFunc(ws)
 	if fn == nil || len(fn.Blocks) == 0 {
 		r.Fail("C28.R1", "anchor:ssa:WriteSample", "-", "no SSA body for WriteSample")
